@@ -8,7 +8,8 @@ PROPS["C02"] = P(
     "of exactly 2^16-1, 2^16, 2^16+1 and of 2^17..2^20 with spill; counts k*2^L+-1 with ragged tails; sparse vectors with word count = 0,1,2,3 mod 4 and the first one far from 0; Select9 span thresholds), "
     "random lengths up to 2^17 quick / 2^24 thorough, and in thorough/UBC spans of 2^32-1, 2^32, 2^32+1 bits in vectors of 2^32+ and 2^33+ bits. "
     "A cell is (structure variant | stratum class incl. tail state); distinct_nontrivial counts cells in which a vector held both a 0 and a 1 (so that both in-range and out-of-range ranks exist), "
-    "or an aimed stratum, or an all-ones/all-zeros stratum of at least 512 bits",
+    "or an aimed stratum, or an all-ones/all-zeros stratum of at least 512 bits"
+    ' The quick tier gives every selector variant one of the three 2^32-gap cases; Tail::Regrown vectors. ',
     dict(builds=["DBG", "UBC"], budget=45),
     dict(builds=["DBG", "UBC", "ASAN", "MIRI"], shards={"MIRI": 6, "ASAN": 3, "DBG": 3, "UBC": 4}),
     hang="violation",
